@@ -1185,6 +1185,11 @@ class CodeGenerator(NodeVisitor):
         test_frame = frame.inner()
         else_frame = frame.inner()
 
+        # the else branch of a recursive loop is emitted into the function
+        # of that loop, outside of its for statement.
+        if node.recursive:
+            else_frame.in_loop_body = False
+
         # try to figure out if we have an extended loop.  An extended loop
         # is necessary if the loop is in recursive mode if the special loop
         # variable is accessed in the body if the body is a scoped block.
